@@ -26,15 +26,17 @@
 #endif
 #define MAXE 4
 
-static const char *GNAME[3] = { "_none_", "A", "B" };
-static const char *KNAME[2] = { "x", "y" };
+/* one section name is a proper prefix of the other, one key of the other: a lookup that
+ * compares prefixes only is told apart */
+static const char *GNAME[3] = { "_none_", "AB", "A" };
+static const char *KNAME[2] = { "x", "xy" };
 static const char *VAL[MAXE] = { "v0", "v1", "v2", "v3" };
 
 unsigned char in_g[MAXE], in_k[MAXE];
 int in_garg, in_karg;      /* how the caller spells section and key */
 
-static int gid_of(const char *g) { return g[0] == '_' ? 0 : g[0] == 'A' ? 1 : 2; }
-static int kid_of(const char *k) { return k[0] == 'x' ? 0 : 1; }
+static int gid_of(const char *g) { return g[0] == '_' ? 0 : g[1] == 'B' ? 1 : 2; }
+static int kid_of(const char *k) { return k[1] == 0 ? 0 : 1; }
 
 static econf_file *build(void)
 {
@@ -114,16 +116,16 @@ int main(void)
   const size_t alloc0 = ef->alloc_length;
   for (size_t i = 0; i < MAXE + 8; i++) if (i < alloc0) snap[i] = ef->file_entry[i];
 
-  /* the caller's arguments: section spelled NULL, "", "[]", "A", "[A]", "B", "[B]"; key NULL, "", "x", "y" */
+  /* the caller's arguments: section spelled NULL, "", "[]", "AB", "[AB]", "A", "[A]"; key NULL, "", "x", "xy" */
   in_garg = nondet_int(); in_karg = nondet_int();
   __CPROVER_assume(in_garg >= 0 && in_garg <= 6 && in_karg >= 0 && in_karg <= 3);
 #if OP == 5
   /* the statement promises bracket-insensitivity for value getters/setters only */
   __CPROVER_assume(in_garg != 2 && in_garg != 4 && in_garg != 6);
 #endif
-  static const char *GARG[7] = { NULL, "", "[]", "A", "[A]", "B", "[B]" };
+  static const char *GARG[7] = { NULL, "", "[]", "AB", "[AB]", "A", "[A]" };
   static const int GARG_ID[7] = { 0, 0, 0, 1, 1, 2, 2 };
-  static const char *KARG[4] = { NULL, "", "x", "y" };
+  static const char *KARG[4] = { NULL, "", "x", "xy" };
   const char *garg = GARG[in_garg], *karg = KARG[in_karg];
   const int g = GARG_ID[in_garg], k = in_karg - 2;      /* k < 0: no key */
   /* reference lookup: first entry with (g,k) */
